@@ -707,6 +707,27 @@ const UNLINKED: u8 = 4;
 /// body. The body is interpreted according to the lane kind (Recon integer / raw map message).
 struct NoteDecoder {
     kind: LaneKind,
+    /// Map lanes behind a pass-through runtime: the body is the Recon text the lane sent.
+    raw: bool,
+}
+
+/// A map event as a lane writes it (`Ev::text`), white space around it allowed.
+fn parse_map_event_text(body: &[u8]) -> Option<Ev> {
+    let t = std::str::from_utf8(body).ok()?.trim();
+    if t == "@clear" {
+        Some(Ev::Clear)
+    } else if let Some(rest) = t.strip_prefix("@update(key:") {
+        let (k, v) = rest.split_once(')')?;
+        Some(Ev::Upd(k.trim().parse().ok()?, v.trim().parse().ok()?))
+    } else if let Some(rest) = t.strip_prefix("@remove(key:") {
+        Some(Ev::Rem(rest.strip_suffix(')')?.trim().parse().ok()?))
+    } else if let Some(rest) = t.strip_prefix("@take(") {
+        Some(Ev::Take(rest.strip_suffix(')')?.trim().parse().ok()?))
+    } else if let Some(rest) = t.strip_prefix("@drop(") {
+        Some(Ev::Drop(rest.strip_suffix(')')?.trim().parse().ok()?))
+    } else {
+        None
+    }
 }
 
 fn num<T: std::str::FromStr>(b: &[u8]) -> Option<T> {
@@ -721,6 +742,7 @@ impl NoteDecoder {
                 Some(v) => Note::Event(Ev::Set(v)),
                 None => Note::BadEvent(shown),
             },
+            LaneKind::Map if self.raw => parse_map_event_text(&body).map(Note::Event).unwrap_or(Note::BadEvent(shown)),
             LaneKind::Map => {
                 let mut dec = RawMapMessageDecoder::default();
                 match dec.decode(&mut body) {
@@ -784,8 +806,8 @@ impl Decoder for NoteDecoder {
 }
 
 /// Reads notification frames until the channel closes or `drop_signal` fires.
-pub async fn consumer_reader(kind: LaneKind, reader: PacedReader, log: SharedCons, drop_signal: Arc<Notify>) {
-    let mut framed = FramedRead::new(reader, NoteDecoder { kind });
+pub async fn consumer_reader(kind: LaneKind, raw: bool, reader: PacedReader, log: SharedCons, drop_signal: Arc<Notify>) {
+    let mut framed = FramedRead::new(reader, NoteDecoder { kind, raw });
     loop {
         tokio::select! {
             biased;
